@@ -321,8 +321,7 @@ Lemma write_slice : forall b pre mid post a c,
 Proof.
   intros b pre mid post a c Hd Ha Hc. unfold write_bytes. rewrite Hd, Nat2Z.id, Hc.
   rewrite skipn_app, skipn_all2 by lia. replace (a - List.length pre)%nat with 0%nat by lia.
-  cbn [skipn app]. rewrite firstn_app, firstn_all2 by lia.
-  replace (List.length mid - List.length mid)%nat with 0%nat by lia. cbn [firstn]. apply app_nil_r.
+  cbn [skipn]. rewrite app_nil_l, firstn_app, firstn_all, Nat.sub_diag. cbn [firstn]. apply app_nil_r.
 Qed.
 
 Definition line_tail (line : bool) : list Z := if line then [10] else [].
@@ -351,7 +350,7 @@ Proof.
     - replace (Z.of_nat N) with (Z.of_nat (N + 1) - 1) by lia.
       rewrite store_in by (cbn [data]; lia). cbn [data oob].
       exists (firstn (N + 1 - 1) init). rewrite skipn_all2 by lia.
-      split; [reflexivity|]. split; [apply firstn_length_le; lia|reflexivity].
+      split; [reflexivity|]. split; [rewrite firstn_length_le; lia|reflexivity].
     - exists init. cbn [data oob line_tail]. rewrite app_nil_r. split; [reflexivity|]. split; [lia|reflexivity]. }
   destruct Hb as (pre & Hdata & Hpre & Hoob). clearbody b.
   assert (Hlt : List.length (line_tail line) = Z.to_nat (if line then 1 else 0)) by (destruct line; reflexivity).
@@ -372,9 +371,9 @@ Proof.
   unfold sign_bytes.
   destruct (Z.ltb_spec v 0) as [Hneg|Hpos].
   - (* negative: one more byte for the sign *)
-    replace (Z.of_nat (N - k) - 1) with (Z.of_nat (N - k - 1)) by lia.
-    replace (Z.of_nat (N - k - 1)) with (Z.of_nat (N - k) - 1) at 1 by lia.
-    rewrite store_in by (rewrite Hdata', !app_length, Hpre', Hdl; lia).
+    pose proof (store_in b' (N - k) 45 ltac:(rewrite Hdata', !app_length, Hpre', Hdl; lia)) as Hst.
+    replace (Z.of_nat (N - k) - 1) with (Z.of_nat (N - k - 1)) in * by lia.
+    rewrite Hst. clear Hst.
     cbn [oob bytes overrun fuel_ok final_start].
     assert (Hskip' : skipn (N - k) (data b') = digit_bytes 20 (Z.abs v) ++ line_tail line).
     { rewrite Hdata', skipn_app, skipn_all2 by lia. replace (N - k - List.length (firstn (N - k) (data b)))%nat with 0%nat by lia. reflexivity. }
@@ -385,7 +384,7 @@ Proof.
       * cbn [data]. rewrite app_nil_r. reflexivity.
       * apply firstn_length_le. rewrite Hdata', !app_length, Hpre', Hdl. lia.
       * cbn [List.length]. rewrite app_length, Hdl, Hlt. destruct line; lia.
-    + cbn [app List.length]. rewrite Hdl. lia.
+    + rewrite app_length, Hdl. cbn [List.length]. lia.
     + lia.
   - cbn [oob bytes overrun fuel_ok final_start app].
     split; [|split; [congruence|split; [reflexivity|split]]].
@@ -394,6 +393,242 @@ Proof.
       * rewrite app_nil_r. exact Hdata'.
       * exact Hpre'.
       * rewrite app_length, Hdl, Hlt. destruct line; lia.
-    + rewrite Hdl. lia.
+    + rewrite app_nil_l, Hdl. lia.
     + lia.
+Qed.
+
+(* fuel: 20 iterations are enough for every 64-bit magnitude, whatever the buffer *)
+Lemma digit_loop_terminates : forall f m b start,
+  0 <= m < 10 ^ Z.of_nat (S f) -> digit_loop (S f) m b start <> None.
+Proof.
+  induction f as [|f IH]; intros m b start Hm; rewrite digit_loop_S; cbv zeta.
+  - change (10 ^ Z.of_nat 1) with 10 in Hm.
+    rewrite (Z.div_small m 10) by lia. cbn [Z.eqb]. discriminate.
+  - destruct (m / 10 =? 0); [discriminate|]. apply IH. rewrite pow10_S in Hm.
+    split; [apply Z.div_pos; lia|]. apply Z.div_lt_upper_bound; lia.
+Qed.
+
+Lemma print_fuel_suffices : forall m b start, 0 <= m < 2 ^ 64 -> digit_loop print_fuel m b start <> None.
+Proof.
+  intros m b start Hm. destruct pow_facts as (_ & H64 & _ & H20).
+  apply digit_loop_terminates. lia.
+Qed.
+
+Lemma zero_buf_length : forall line, List.length (zero_buf line) = Z.to_nat (buf_size line).
+Proof. intros. unfold zero_buf. apply repeat_length. Qed.
+
+Lemma print_i64_digits_gen : forall init v, in_i64 v -> List.length init = Z.to_nat (buf_size false) ->
+  bytes (print_gen false init v) = decimal v.
+Proof.
+  intros init v Hv Hi. destruct (print_gen_spec false init v Hv Hi) as (H & _).
+  rewrite H. apply app_nil_r.
+Qed.
+
+Lemma println_i64_digits_gen : forall init v, in_i64 v -> List.length init = Z.to_nat (buf_size true) ->
+  bytes (print_gen true init v) = decimal v ++ [10].
+Proof. intros init v Hv Hi. destruct (print_gen_spec true init v Hv Hi) as (H & _). exact H. Qed.
+
+Lemma print_i64_digits : forall v, - 2 ^ 63 <= v < 2 ^ 63 -> bytes (print_i64 v) = decimal v.
+Proof. intros v Hv. apply print_i64_digits_gen; [exact Hv|apply zero_buf_length]. Qed.
+
+Lemma println_i64_digits : forall v, - 2 ^ 63 <= v < 2 ^ 63 -> bytes (println_i64 v) = decimal v ++ [10].
+Proof. intros v Hv. apply println_i64_digits_gen; [exact Hv|apply zero_buf_length]. Qed.
+
+Lemma print_never_overruns : forall line init v,
+  - 2 ^ 63 <= v < 2 ^ 63 -> List.length init = Z.to_nat (buf_size line) ->
+  let r := print_gen line init v in
+  overrun r = false /\ fuel_ok r = true /\ 0 <= final_start r /\
+  Z.of_nat (List.length (bytes r)) = buf_size line - final_start r.
+Proof.
+  intros line init v Hv Hi. destruct (print_gen_spec line init v Hv Hi) as (Hb & Ho & Hf & Hs & H0).
+  cbv zeta. repeat split; try assumption.
+  rewrite Hb, Hs, app_length. unfold buf_size. destruct line; cbn [line_tail List.length]; lia.
+Qed.
+
+(* ------------------------------------------------------------------ *)
+(* decimal: sanity (it parses back) and atoll                          *)
+(* ------------------------------------------------------------------ *)
+Lemma string_bytes_roundtrip : forall s, string_of_bytes (bytes_of_string s) = s.
+Proof.
+  induction s as [|a s IH]; [reflexivity|]. cbn [bytes_of_string string_of_bytes]. rewrite IH. f_equal.
+  unfold ascii_of_byte, byte_of_ascii. rewrite N2Z.id. apply ascii_N_embedding.
+Qed.
+
+Lemma decimal_parses_back : forall v,
+  NilZero.int_of_string (string_of_bytes (decimal v)) = Some (Z.to_int v) /\ Z.of_int (Z.to_int v) = v.
+Proof.
+  intros v. unfold decimal. rewrite string_bytes_roundtrip. split; [|apply DecimalZ.of_to].
+  apply NilZero.isi; destruct v; cbn [Z.to_int]; try discriminate;
+    intro H; injection H as H; revert H; apply DecimalPos.Unsigned.to_uint_nonnil.
+Qed.
+
+Lemma atoll_digits_horner : forall l acc, Forall isdigit l ->
+  atoll_digits (map (fun d => 48 + d) l) acc = horner l acc.
+Proof.
+  induction l as [|d l IH]; intros acc H; [reflexivity|].
+  inversion H as [|? ? Hd Hl]; subst. cbn [map atoll_digits]. rewrite horner_cons.
+  unfold isdigit in Hd.
+  destruct (Z.leb_spec 48 (48 + d)); [|lia]. destruct (Z.leb_spec (48 + d) 57); [|lia]. cbn [andb].
+  rewrite IH by assumption. f_equal. lia.
+Qed.
+
+Lemma atoll_unsigned_form : forall d r, isdigit d ->
+  atoll ((48 + d) :: r) = clamp_i64 (atoll_digits ((48 + d) :: r) 0).
+Proof. intros d r Hd. digit_split Hd; reflexivity. Qed.
+
+Lemma atoll_decimal : forall v, - 2 ^ 63 <= v < 2 ^ 63 -> atoll (decimal v) = v.
+Proof.
+  intros v Hv. destruct pow_facts as (H63 & H64 & H19 & H20).
+  rewrite (decimal_digs 19 v) by lia.
+  pose proof (digs_range 20 (Z.abs v)) as Hr.
+  pose proof (digs_horner 20 (Z.abs v) ltac:(lia)) as Hh.
+  unfold sign_bytes, digit_bytes.
+  destruct (Z.ltb_spec v 0) as [Hneg|Hpos].
+  - change (atoll ([45] ++ map (fun d => 48 + d) (digs 20 (Z.abs v))))
+      with (clamp_i64 (- atoll_digits (map (fun d => 48 + d) (digs 20 (Z.abs v))) 0)).
+    rewrite atoll_digits_horner, Hh by assumption. unfold clamp_i64. lia.
+  - rewrite app_nil_l.
+    pose proof (digs_length_pos 19 (Z.abs v)) as Hl.
+    destruct (digs 20 (Z.abs v)) as [|d r] eqn:E; [simpl in Hl; lia|].
+    inversion Hr; subst. cbn [map]. rewrite atoll_unsigned_form by assumption.
+    change ((48 + d) :: map (fun d => 48 + d) r) with (map (fun d => 48 + d) (d :: r)).
+    rewrite atoll_digits_horner, Hh by assumption. unfold clamp_i64. lia.
+Qed.
+
+(* ------------------------------------------------------------------ *)
+(* the driver                                                          *)
+(* ------------------------------------------------------------------ *)
+Lemma i32_low8 : forall x, i32_of_bits x mod 256 = x mod 256.
+Proof.
+  intros x. unfold i32_of_bits.
+  assert (H31 : 2 ^ 31 = 2147483648) by reflexivity. assert (H32 : 2 ^ 32 = 4294967296) by reflexivity.
+  rewrite H31, H32.
+  pose proof (Z.div_mod (x + 2147483648) 4294967296 ltac:(lia)) as Hdm.
+  replace ((x + 2147483648) mod 4294967296 - 2147483648)
+    with (x + (- 16777216 * ((x + 2147483648) / 4294967296)) * 256) by lia.
+  apply Z_mod_plus_full.
+Qed.
+
+Lemma argc_ok : forall n (argv : list (list Z)), List.length argv = S n ->
+  negb (Z.of_nat (List.length argv) =? 1 + Z.of_nat n) = false.
+Proof. intros n argv H. rewrite H. destruct (Z.eqb_spec (Z.of_nat (S n)) (1 + Z.of_nat n)); [reflexivity|lia]. Qed.
+
+Lemma exit_status_low8 : forall n asm_main argv out rax,
+  List.length argv = S n ->
+  asm_main (map atoll (firstn n (tl argv))) = (out, rax) ->
+  let r := driver n asm_main argv in
+  d_status r = rax mod 256 /\ d_main_returns r = i32_of_bits rax /\ d_output r = out /\ 0 <= d_status r < 256.
+Proof.
+  intros n asm_main argv out rax Hlen Hcall. unfold driver. rewrite argc_ok by assumption.
+  rewrite Hcall. cbn [d_status d_main_returns d_output]. rewrite i32_low8.
+  repeat split; try reflexivity; apply Z.mod_pos_bound; lia.
+Qed.
+
+Lemma wrong_argc_reports : forall n asm_main argv,
+  List.length argv <> S n ->
+  let r := driver n asm_main argv in
+  d_output r = error_arguments /\ d_calls r = [] /\ d_status r = 1.
+Proof.
+  intros n asm_main argv Hlen. unfold driver.
+  destruct (Z.eqb_spec (Z.of_nat (List.length argv)) (1 + Z.of_nat n)) as [E|E]; [lia|].
+  cbn [negb d_output d_calls d_status]. repeat split.
+Qed.
+
+Lemma arguments_reach_main : forall n asm_main prog vs,
+  List.length vs = n -> Forall in_i64 vs ->
+  d_calls (driver n asm_main (prog :: map decimal vs)) = [vs].
+Proof.
+  intros n asm_main prog vs Hlen Hvs. unfold driver.
+  rewrite argc_ok by (cbn [List.length]; rewrite map_length; lia).
+  cbn [tl]. replace n with (List.length (map decimal vs)) by (rewrite map_length; assumption).
+  rewrite firstn_all.
+  destruct (asm_main (map atoll (map decimal vs))) as [out rax]. cbn [d_calls]. f_equal.
+  rewrite map_map. clear Hlen. induction Hvs as [|v vs Hv Hvs IH]; [reflexivity|].
+  cbn [map]. rewrite IH. f_equal. apply atoll_decimal. exact Hv.
+Qed.
+
+(* ------------------------------------------------------------------ *)
+(* move_arguments / setup                                              *)
+(* ------------------------------------------------------------------ *)
+Fixpoint seq_nat (k : nat) : list nat := match k with O => [] | S j => seq_nat j ++ [j] end.
+
+(* the transliterated functions produce exactly the instruction lists of the compiled crates *)
+Lemma x86_move_arguments_is_code :
+  map x86_move_arguments (seq_nat 6) = map Some X86RT.move_arguments /\
+  x86_move_arguments 6 = None /\ X86RT.max_main_args = 5 /\
+  X86RT.nargs_passed_through = [0; 1; 2; 3; 4; 5].
+Proof. repeat split; reflexivity. Qed.
+
+Lemma a64_move_arguments_is_code :
+  map a64_move_arguments (seq_nat 8) = map Some A64RT.move_arguments /\
+  a64_move_arguments 8 = None /\ A64RT.max_main_args = 7 /\
+  A64RT.nargs_passed_through = [0; 1; 2; 3; 4; 5; 6; 7].
+Proof. repeat split; reflexivity. Qed.
+
+(* registers: the integer half of environment position i, and the calling conventions *)
+Lemma param_regs_are_code :
+  map x86_param_reg (seq_nat 6) = X86RT.param_int_regs /\
+  map a64_param_reg (seq_nat 8) = A64RT.param_int_regs.
+Proof. split; reflexivity. Qed.
+
+Lemma arg_regs_follow_abi :
+  map (fun r => nth (Z.to_nat r) X86RT.reg_names ""%string) X86C.arg_regs = sysv_arg_names /\
+  map (fun r => nth r A64RT.reg_names ""%string) (seq_nat 8) = aapcs64_arg_names /\
+  A64C.HEAP = 0.
+Proof. repeat split; reflexivity. Qed.
+
+Ltac small_nat i H :=
+  destruct i as [|[|[|[|[|[|[|[|i]]]]]]]]; try (exfalso; clear - H; lia).
+
+Lemma move_arguments_x86_ok : forall n moves, (n <= 5)%nat ->
+  nth_error X86RT.move_arguments n = Some moves ->
+  forall (rf : regfile) i, (i < n)%nat ->
+    exec_moves moves rf (x86_param_reg i) = rf (x86_arg (S i)).
+Proof.
+  intros n moves Hn Hm rf i Hi.
+  small_nat n Hn; cbn in Hm; injection Hm as <-; small_nat i Hi; reflexivity.
+Qed.
+
+Lemma move_arguments_a64_ok : forall n moves, (n <= 7)%nat ->
+  nth_error A64RT.move_arguments n = Some moves ->
+  forall (rf : regfile) i, (i < n)%nat ->
+    exec_moves moves rf (a64_param_reg i) = rf (Z.of_nat (S i)).
+Proof.
+  intros n moves Hn Hm rf i Hi.
+  small_nat n Hn; cbn in Hm; injection Hm as <-; small_nat i Hi; reflexivity.
+Qed.
+
+(* the same for the transliterated functions *)
+Lemma move_arguments_x86_model_ok : forall n moves, x86_move_arguments n = Some moves ->
+  forall (rf : regfile) i, (i < n)%nat -> exec_moves moves rf (x86_param_reg i) = rf (x86_arg (S i)).
+Proof.
+  intros n moves Hm rf i Hi.
+  assert (Hn : (n <= 5)%nat).
+  { destruct n as [|[|[|[|[|[|n]]]]]]; try lia. exfalso.
+    cbn [x86_move_arguments] in Hm. discriminate Hm. }
+  small_nat n Hn; cbn in Hm; injection Hm as <-; small_nat i Hi; reflexivity.
+Qed.
+
+(* the whole prologue, every instruction between the entry label and the program's code:
+   parameters arrive, and so does the heap pointer, whatever the other instructions write *)
+Lemma setup_x86_ok : forall n effects, (n <= 5)%nat ->
+  nth_error X86RT.setup_effects n = Some effects ->
+  forall (rf : regfile) (havoc : nat -> Z),
+    let rf' := exec_effects effects havoc 0 rf in
+    (forall i, (i < n)%nat -> rf' (x86_param_reg i) = rf (x86_arg (S i))) /\
+    rf' X86C.HEAP = rf (x86_arg 0).
+Proof.
+  intros n effects Hn Hm rf havoc.
+  small_nat n Hn; cbn in Hm; injection Hm as <-; (split; [intros i Hi; small_nat i Hi; reflexivity|reflexivity]).
+Qed.
+
+Lemma setup_a64_ok : forall n effects, (n <= 7)%nat ->
+  nth_error A64RT.setup_effects n = Some effects ->
+  forall (rf : regfile) (havoc : nat -> Z),
+    let rf' := exec_effects effects havoc 0 rf in
+    (forall i, (i < n)%nat -> rf' (a64_param_reg i) = rf (Z.of_nat (S i))) /\
+    rf' A64C.HEAP = rf 0.
+Proof.
+  intros n effects Hn Hm rf havoc.
+  small_nat n Hn; cbn in Hm; injection Hm as <-; (split; [intros i Hi; small_nat i Hi; reflexivity|reflexivity]).
 Qed.
